@@ -12,8 +12,11 @@ import (
 	"sort"
 
 	"github.com/go-shiori/dom"
+	"github.com/markusmobius/go-domdistiller/internal/domutil"
 	"github.com/markusmobius/go-domdistiller/internal/extractor"
+	"github.com/markusmobius/go-domdistiller/internal/extractor/embed"
 	"github.com/markusmobius/go-domdistiller/internal/label"
+	"github.com/markusmobius/go-domdistiller/internal/stringutil"
 	"github.com/markusmobius/go-domdistiller/internal/tableclass"
 	"github.com/markusmobius/go-domdistiller/internal/webdoc"
 	"golang.org/x/net/html"
@@ -155,3 +158,28 @@ func VerifClassifyTable(t *html.Node) (string, string) {
 
 // VerifValidText is the classifier's "has valid text" test.
 func VerifValidText(e *html.Node) bool { return tableclass.VerifHasValidText(e) }
+
+// VerifHasRootDomain is domutil.HasRootDomain.
+func VerifHasRootDomain(url, root string) bool { return domutil.HasRootDomain(url, root) }
+
+// VerifCreateAbsoluteURL is stringutil.CreateAbsoluteURL.
+func VerifCreateAbsoluteURL(url string, base *nurl.URL) string {
+	return stringutil.CreateAbsoluteURL(url, base)
+}
+
+// VerifEmbedProbe asks each third-party embed extractor about the node (they do not modify
+// it) and returns "type id" per extractor name ("" when the extractor declines).
+func VerifEmbedProbe(n *html.Node, pageURL *nurl.URL) map[string]string {
+	out := map[string]string{}
+	probe := func(name string, ex embed.EmbedExtractor) {
+		if e, ok := ex.Extract(n).(*webdoc.Embed); ok && e != nil {
+			out[name] = e.Type + " " + e.ID
+		} else {
+			out[name] = ""
+		}
+	}
+	probe("twitter", embed.NewTwitterExtractor(pageURL, nil))
+	probe("vimeo", embed.NewVimeoExtractor(pageURL, nil))
+	probe("youtube", embed.NewYouTubeExtractor(pageURL, nil))
+	return out
+}
